@@ -82,10 +82,11 @@ fn main() {
 }
 "#;
 
-fn churn_program(c: &mut Choices) -> (String, String) {
-    let payload = *c.pick(&[4i64, 64, 1000, 20000]);
-    // total allocation >= 20x a 32 MiB heap
-    let rounds = (700i64 << 20) / ((payload + 8) * 8);
+fn churn_program(c: &mut Choices, heap_mb: i64) -> (String, String) {
+    // live set (<= 64 nodes) stays below 1/8 of the heap
+    let payload = if heap_mb >= 32 { *c.pick(&[4i64, 64, 1000, 20000]) } else { *c.pick(&[4i64, 1, 64, 400, 3]) };
+    // total allocation >= 20x the heap
+    let rounds = ((heap_mb * 22) << 20) / ((payload + 8) * 8);
     let keep_every = *c.pick(&[3i64, 10, 50]);
     let src = CHURN.replace("ROUNDS", &rounds.to_string()).replace("PAYLOAD", &payload.to_string()).replace("KEEP_EVERY", &keep_every.to_string());
     // reference result computed here
@@ -147,14 +148,20 @@ impl Prop for GcInvisible {
                 GcCase { prog: ProgCase { source: base.source.clone(), expected: None, stats: vec![], features: vec![] }, label: base.label.clone(), backend, debug_runtime, configs, reclaim: None }
             }
             _ => {
-                let (src, out) = churn_program(c);
-                // reclamation: small heap, a reclaiming collector, stress only without disable-tlab (cost)
+                // reclamation: small heap, a reclaiming collector; stress only with TLABs (cost). Half of the cases use a very
+                // small heap, where object-by-object allocation (--disable-tlab) is affordable and free-list reuse is exercised
+                let heap_mb = *c.pick(&[32i64, 4, 2, 8]);
+                let (src, out) = churn_program(c, heap_mb);
                 for cfg in configs.iter_mut() {
                     if cfg.gc == "zero" {
-                        cfg.gc = "copy".into();
+                        cfg.gc = c.pick_str(&["copy", "sweep", "swiper"]).into();
                     }
-                    cfg.flags = cfg.flags.replace("--gc-stress-minor", "").replace("--gc-stress", "").replace("--disable-tlab", "").replace("--gc-verify", "").replace("--max-heap-size=256M", "").replace("--max-heap-size=64M", "").replace("--max-heap-size=32M", "");
-                    cfg.flags = format!("{} --max-heap-size=32M", cfg.flags.trim()).trim().to_string();
+                    let no_tlab = heap_mb < 32 && cfg.flags.contains("--disable-tlab");
+                    let mut keep: Vec<&str> = cfg.flags.split_whitespace().filter(|f| f.starts_with("--gc-worker") || (heap_mb >= 32 && f.starts_with("--gc-young-size"))).collect();
+                    if no_tlab {
+                        keep.push("--disable-tlab");
+                    }
+                    cfg.flags = format!("{} --max-heap-size={}M", keep.join(" "), if cfg.gc == "swiper" { heap_mb.max(8) } else { heap_mb }).trim().to_string();
                 }
                 GcCase {
                     prog: ProgCase { source: src, expected: Some(crate::progen::interp::Expected { stdout: out.clone(), status: 0, message: None, kind: "exit" }), stats: vec![], features: vec![] },
@@ -193,7 +200,7 @@ impl Prop for GcInvisible {
                     return Outcome { inconclusive: Some(format!("compile failed: {sig}")), hash: h, ..Default::default() };
                 }
             }
-            let timeout = if cfg.flags.contains("stress") { 240 } else { 120 };
+            let timeout = 120;
             let rr = run_exe(&exe, &cfg.flags, Duration::from_secs(timeout), &scratch.path);
             if rr.timed_out {
                 return Outcome { inconclusive: Some(format!("run timed out under --gc={} {}", cfg.gc, cfg.flags)), hash: h, ..Default::default() };
